@@ -838,6 +838,15 @@ def canon_fmt(e, names):
             return _var(names, fmt(e))
         if k == 'local' and e[1] not in names:
             return _var(names, fmt(e))
+    if CANON_V7 and k == 'field' and str(e[2]) == '0' and isinstance(e[1], tuple) and e[1][0] == 'downcast' and \
+            e[1][2] in ('Some', 'Ok', 'Continue'):
+        # the value carried by a successful Option / Result, however it is taken out (`if let Some(x)`, `?`, match)
+        inner = e[1][1]
+        while isinstance(inner, tuple) and inner[0] in ('deref', 'ref'):
+            inner = inner[1]
+        if isinstance(inner, tuple) and inner[0] == 'call' and (inner[1] or '').endswith('Try>::branch') and len(inner[2]) == 1:
+            inner = inner[2][0]
+        return 'val(%s)' % canon_fmt(inner, names)
     if k == 'local':
         return names.get(e[1], 't')
     if k == 'const':
@@ -849,7 +858,11 @@ def canon_fmt(e, names):
     if k in ('deref', 'ref'):
         return canon_fmt(e[1], names)
     if k == 'index':
-        return '%s[%s]' % (canon_fmt(e[1], names), canon_fmt(e[2], names))
+        base_, idx_ = canon_fmt(e[1], names), canon_fmt(e[2], names)
+        if CANON_V7 and re.fullmatch(r'v\d+', idx_) and re.fullmatch(r'arg\d+(\.\w+)*', base_):
+            # element of a parameter slice at a loop variable: the same value a zip / iter over that slice yields
+            return _var(names, 'elem:' + base_ + ':' + idx_)
+        return '%s[%s]' % (base_, idx_)
     if k == 'cindex':
         return '%s[%d]' % (canon_fmt(e[1], names), e[2])
     if k == 'downcast':
@@ -953,6 +966,7 @@ def obligations_in_context(facts, body, keep=None):
 
 CANON_V5 = os.environ.get('VERIF_PO_CANON', 'new') not in ('old', 'v2', 'v3', 'v4')
 CANON_V6 = os.environ.get('VERIF_PO_CANON', 'new') not in ('old', 'v2', 'v3', 'v4', 'v5')
+CANON_V7 = os.environ.get('VERIF_PO_CANON', 'new') not in ('old', 'v2', 'v3', 'v4', 'v5', 'v6')
 
 
 class KeyBody(object):
@@ -1012,8 +1026,35 @@ def _po_policy(facts, caller, callee, keep):
     return callee.kind in ('Fn', 'AssocFn', 'Closure') and not (keep is not None and keep(callee.path)) and len(callee.blocks) <= 120
 
 
+def _fn_item_user(facts, b):
+    """the single known function that passes the (new) function b by value (`prescan(.., add_counts)`), else None"""
+    users = set()
+    for c in facts.body_list:
+        for blk in c.blocks:
+            t = blk['t']
+            if t['k'] == 'call':
+                for a in t['args']:
+                    k = a.get('k') if isinstance(a, dict) else None
+                    if isinstance(k, dict) and (k.get('res') or k.get('fn')) == b.path:
+                        users.add(c.path)
+    return list(users)[0] if len(users) == 1 else None
+
+
 def _keyed(facts, b, obs):
     """closures: re-express the operands of their obligations in the vocabulary of the enclosing function and key them by it"""
+    if CANON_V7 and b.kind in ('Fn', 'AssocFn'):
+        # a function that did not exist at audit time and is only handed to an adaptor by value replaces a closure
+        try:
+            from .po_known import KNOWN
+        except ImportError:
+            KNOWN = ()
+        if b.path not in KNOWN:
+            user = _fn_item_user(facts, b)
+            if user is not None:
+                for o in obs:
+                    o['ops'] = alpha(re.sub(r'\barg(\d)\b', r'v8\1', o.get('ops_raw', o['ops'])))
+                return KeyBody(b, user)
+        return b
     if b.kind != 'Closure' or not CANON_V5:
         return b
     root, vocab = closure_vocabulary(facts, b)
